@@ -556,7 +556,7 @@ def load_corpus():
     return out
 
 
-def launch(ctx, exe, tag, ranks, cores, lines, timeout):
+def launch(ctx, exe, tag, ranks, cores, lines, timeout, env_extra=None):
     script, prefix = ctx.path(tag + '.script'), ctx.path(tag + '.out')
     open(script, 'w').write('\n'.join(lines) + '\n')
     cmd = [exe, script, prefix, str(cores)]
@@ -567,7 +567,7 @@ def launch(ctx, exe, tag, ranks, cores, lines, timeout):
         for r in range(ranks):
             if os.path.exists('%s.%d' % (prefix, r)):
                 os.remove('%s.%d' % (prefix, r))
-        rc, out, err = pv.sh(cmd, env=ENV, timeout=timeout)
+        rc, out, err = pv.sh(cmd, env=dict(ENV, **(env_extra or {})), timeout=timeout)
         started = all(os.path.exists('%s.%d' % (prefix, r)) for r in range(ranks))
         if rc == 0 or started:
             break       # a launch that never started (MPI daemon start-up failure on a loaded machine) is retried once
@@ -576,7 +576,7 @@ def launch(ctx, exe, tag, ranks, cores, lines, timeout):
         p = '%s.%d' % (prefix, r)
         trs.append(open(p).read() if os.path.exists(p) else '')
     complete = all(t.rstrip().endswith('#end') for t in trs)
-    return {'tag': tag, 'ranks': ranks, 'cores': cores, 'lines': lines, 'rc': rc, 'err': (out + err)[-700:], 'trs': trs, 'complete': complete}
+    return {'tag': tag, 'ranks': ranks, 'cores': cores, 'lines': lines, 'env': env_extra or {}, 'rc': rc, 'err': (out + err)[-700:], 'err_full': (out + err)[-20000:], 'trs': trs, 'complete': complete}
 
 
 FINDING_CASES = [
@@ -593,17 +593,22 @@ FINDING_CASES = [
 def analyse(ctx, res, run, dist, jdf_edges, from_corpus=False):
     """compare one launch with the model and evaluate the oracles"""
     tag = run['tag']
-    if not run['complete'] or run['rc'] != 0:
+    if run['complete'] and run['rc'] != 0 and run['ranks'] > 1 and not re.search(r'Process received signal|exited on signal|Segmentation|Aborted', run.get('err_full', run['err'])):
+        # every rank executed the whole script and closed its transcript; the non-zero status comes from mpiexec's
+        # teardown on an oversubscribed machine (also seen by C37: about 1 launch in 40); counted, not a result
+        dist['mpi_nonzero_exit_after_complete_run'] = dist.get('mpi_nonzero_exit_after_complete_run', 0) + 1
+        res.notes.append('launch %s: all %d transcripts complete, mpiexec status %s: %s' % (tag, run['ranks'], run['rc'], ' '.join(run.get('err_full', '')[:600].split())))
+    elif not run['complete'] or run['rc'] != 0:
         last = [t.strip().splitlines()[-1] if t.strip() else '<nothing>' for t in run['trs']]
         res.violations.append({'key': 'harness-died:' + tag, 'what': 'the run of the real code (%d ranks, %d cores) ended with status %s before the script was finished; last transcript lines: %s; %s' % (
-            run['ranks'], run['cores'], run['rc'], last, run['err'][-300:]), 'case': {'ranks': run['ranks'], 'cores': run['cores'], 'lines': run['lines']}, 'seed': ctx.seed})
+            run['ranks'], run['cores'], run['rc'], last, run['err'][-300:]), 'case': {'ranks': run['ranks'], 'cores': run['cores'], 'lines': run['lines'], 'env': run.get('env', {})}, 'seed': ctx.seed})
     all_ops, all_impl, owners = [], [], []
     for r, t in enumerate(run['trs']):
         ops, impl, stats, viols = pv.parse_transcript(t)
         for k, v in stats.items():
             dist[k] = dist.get(k, 0) + v
         for v in viols:
-            res.violations.append({'key': 'oracle-in-harness:' + v.split(':')[0], 'what': v, 'case': {'ranks': run['ranks'], 'cores': run['cores'], 'lines': run['lines']}, 'seed': ctx.seed})
+            res.violations.append({'key': 'oracle-in-harness:' + v.split(':')[0], 'what': v, 'case': {'ranks': run['ranks'], 'cores': run['cores'], 'lines': run['lines'], 'env': run.get('env', {})}, 'seed': ctx.seed})
         all_ops += ops
         all_impl += impl
         owners += [r] * len(ops)
@@ -620,7 +625,7 @@ def analyse(ctx, res, run, dist, jdf_edges, from_corpus=False):
         res.disagreements += dis[:10]
     res.evaluations += len(all_ops)
     # oracles
-    case = lambda: {'ranks': run['ranks'], 'cores': run['cores'], 'lines': run['lines']}
+    case = lambda: {'ranks': run['ranks'], 'cores': run['cores'], 'lines': run['lines'], 'env': run.get('env', {})}
     mapgroups = {}
     seq = [0] * run['ranks']
     for o, i, r in zip(all_ops, all_impl, owners):
@@ -639,6 +644,16 @@ def analyse(ctx, res, run, dist, jdf_edges, from_corpus=False):
                 res.nontrivial('map ' + ' '.join(w[1:5]) + ' ' + w[5][:200])
                 res.traces_validated += 1
                 dist['map_events'] = dist.get('map_events', 0) + w[5].count(',') + 1
+        elif w[0] == 'mapwide':
+            mt, nt = int(w[1]), int(w[2])
+            sched = run.get('env', {}).get('PARSEC_MCA_mca_sched', 'default')
+            dist['mapwide_sched_' + sched] = dist.get('mapwide_sched_' + sched, 0) + 1
+            dist['mapwide_column_handouts'] = dist.get('mapwide_column_handouts', 0) + nt
+            if not i.startswith('ok tiles=%d ' % (mt * nt)):
+                res.violations.append({'key': 'map-not-exactly-once', 'what': 'free-running map operator on %d x %d tiles, %s threads, scheduler %s: not every tile visited exactly once: %s' % (
+                    mt, nt, w[3] if len(w) > 3 else '?', sched, i[:300]), 'case': case(), 'seed': ctx.seed})
+            res.nontrivial('mapwide %s %s %s %s #%d' % (w[1], w[2], w[3] if len(w) > 3 else '?', sched, dist['mapwide_sched_' + sched]))
+            res.traces_validated += 1
         elif w[0] == 'reduce' and len(w) == 3:
             e = oracle_reduce(o, i, jdf_edges)
             if e:
@@ -732,11 +747,17 @@ def run(ctx, res):
             jobs.append(('corpus-' + c['name'].replace('.case', ''), c['ranks'], c['cores'], c['lines'], None))
     for (ranks, cores), lines in scripts.items():
         jobs.append(('gen-r%dc%d' % (ranks, cores), ranks, cores, lines, None))
+    # free-running search for rare interleavings of the column hand-out: very wide matrices, many threads, several schedulers
+    wide = [(8, 'lfq'), (16, 'll'), (12, 'gd')] if ctx.quick else [(8, 'lfq'), (16, 'll'), (12, 'gd'), (8, 'ap'), (16, 'lhq'), (6, 'pbq'), (10, 'rnd'), (16, 'lfq')]
+    for k, (cores, sched) in enumerate(wide):
+        r2 = rng.fork(100 + k)
+        shapes = [(1, 20000), (2, 10000)] + [r2.choice([(1, 20000), (2, 10000), (1, 30000), (3, 7000), (1, 25000), (2, 12000)]) for _ in range(6 if ctx.quick else 30)]
+        jobs.append(('wide-%s-c%d' % (sched, cores), 1, cores, ['watchdog 60'] + ['mapwide %d %d' % sh for sh in shapes], None, {'PARSEC_MCA_mca_sched': sched}))
     for tag, ranks, cores, lines, key, what in FINDING_CASES:
         jobs.append((tag, ranks, cores, lines, (key, what)))
     tmo = 420 if ctx.quick else 1500
-    with concurrent.futures.ThreadPoolExecutor(max_workers=4 if ctx.quick else 3) as ex:
-        futs = [(j, ex.submit(launch, ctx, exe, j[0], j[1], j[2], j[3], tmo)) for j in jobs]
+    with concurrent.futures.ThreadPoolExecutor(max_workers=6 if ctx.quick else 3) as ex:
+        futs = [(j, ex.submit(launch, ctx, exe, j[0], j[1], j[2], j[3], tmo, j[5] if len(j) > 5 else None)) for j in jobs]
         runs = [(j, f.result()) for j, f in futs]
     samples = []
     for j, r in runs:
@@ -748,6 +769,7 @@ def run(ctx, res):
         dist['launches'] = dist.get('launches', 0) + 1
     res.rule = ('apply mt nt uplo (mt, nt in 1..13, uplo in upper/lower/full + invalid values) on P x Q grids of 1-4 ranks with 1-4 threads; map mt nt on the same grids '
                 '(every rank owns a tile), the observed execution order replayed by the model; reduce MT (1..33) on 1 rank with logged data_of and captured task bodies; '
+                'mapwide: free-running real map operator on 1 x 20000 .. 3 x 7000 tiles, 8-16 threads, schedulers lfq/ll/gd (+ap/lhq/pbq/rnd thorough), atomic per-tile counters; '
                 'redcol/redrow through the generated constructors with consistent (IA,JA,M,N); clog2 n for n <= 4100 (70000 thorough) and all 2^e +-1, e <= 30; '
                 'task spaces / dependency text of the 4 .jdf files enumerated for sampled sizes. distinct = distinct op line (incl. observed order); '
                 'non-trivial = a run that executed at least one task / a non-empty space')
@@ -768,7 +790,7 @@ def replay(ctx, res, obj):
         c = v.get('case')
         if not isinstance(c, dict) or 'lines' not in c:
             continue
-        r = launch(ctx, exe, 'replay%d' % n, c.get('ranks', 1), c.get('cores', 1), c['lines'], 600)
+        r = launch(ctx, exe, 'replay%d' % n, c.get('ranks', 1), c.get('cores', 1), c['lines'], 600, c.get('env') or None)
         fk = [f for f in FINDING_CASES if f[4] == v.get('key')]
         if fk:
             analyse_finding(ctx, res, r, fk[0][4], fk[0][5], dist)
